@@ -54,6 +54,7 @@ __CPROVER_ensures(!g_pu.ok ==> g_raise_count == OLD(g_raise_count) + 1)
       (size_t)__CPROVER_POINTER_OFFSET((v).ptr) >= (size_t)__CPROVER_POINTER_OFFSET(S_) &&                             \
       (size_t)__CPROVER_POINTER_OFFSET((v).ptr) - (size_t)__CPROVER_POINTER_OFFSET(S_) <= N_ &&                        \
       (v).len <= N_ - ((size_t)__CPROVER_POINTER_OFFSET((v).ptr) - (size_t)__CPROVER_POINTER_OFFSET(S_))))
+#define SAME_OR_IN(v) (SUB_SAME(v) || SUB_IN(v))
 /* the cursor afterwards is S[k, N) */
 #define STR_AT(k) (str->len == N_ - (k) && (S_ == NULL ? str->ptr == NULL : PEQ(str->ptr, S_ + (k))))
 
@@ -61,7 +62,7 @@ __CPROVER_ensures(!g_pu.ok ==> g_raise_count == OLD(g_raise_count) + 1)
     __CPROVER_requires(__CPROVER_is_fresh(parser, sizeof(*parser)))                                                    \
     __CPROVER_requires(__CPROVER_is_fresh(parser->uri, sizeof(struct aws_uri)))                                        \
     __CPROVER_requires(CUR_OK(str))                                                                                    \
-    __CPROVER_requires(g_mc_n == 0)
+    __CPROVER_requires(g_mc_on ==> g_mc_n == 0)
 #define RAISED (g_raise_count == OLD(g_raise_count) + 1 && g_last_error == AWS_ERROR_MALFORMED_INPUT_STRING)
 #define NOT_RAISED (g_raise_count == OLD(g_raise_count) && g_last_error == OLD(g_last_error))
 
@@ -74,11 +75,16 @@ __CPROVER_ensures(!g_pu.ok ==> g_raise_count == OLD(g_raise_count) + 1)
 static void s_parse_scheme(struct uri_parser *parser, struct aws_byte_cursor *str)
 PARSER_REQ
 __CPROVER_assigns(parser->state, parser->uri->scheme, str->ptr, str->len, g_mc_n, g_mc[0], g_last_error, g_raise_count)
-__CPROVER_ensures(g_mc_n == 1 && MC_IS(0, ':', 0, N_))
-__CPROVER_ensures(!SCH_FOUND ==> parser->state == ON_AUTHORITY && SUB_SAME(parser->uri->scheme) && STR_AT(0) && NOT_RAISED)
-__CPROVER_ensures(SCH_FOUND ==> SUB_IS(parser->uri->scheme, 0, SCH_C))
-__CPROVER_ensures(SCH_FOUND && SCH_WELL ==> parser->state == ON_AUTHORITY && STR_AT(SCH_C + 3) && NOT_RAISED)
-__CPROVER_ensures(SCH_FOUND && !SCH_WELL ==> parser->state == ERROR && STR_AT(SCH_C) && RAISED)
+/* in every case: the scheme view is untouched or a view into the text, the cursor is a suffix of the text */
+__CPROVER_ensures(SAME_OR_IN(parser->uri->scheme) && str->len <= N_ && STR_AT(N_ - str->len))
+__CPROVER_ensures(parser->state == ON_AUTHORITY || parser->state == ERROR)
+__CPROVER_ensures(parser->state == ERROR ? RAISED : NOT_RAISED)
+/* exactly (g_mc_on: the search log is switched on by the enforcing harness, off where the contract replaces a call) */
+__CPROVER_ensures(g_mc_on ==> g_mc_n == 1 && MC_IS(0, ':', 0, N_))
+__CPROVER_ensures(g_mc_on && !SCH_FOUND ==> parser->state == ON_AUTHORITY && SUB_SAME(parser->uri->scheme) && str->len == N_)
+__CPROVER_ensures(g_mc_on && SCH_FOUND ==> parser->uri->scheme.ptr == S_ && parser->uri->scheme.len == SCH_C)
+__CPROVER_ensures(g_mc_on && SCH_FOUND && SCH_WELL ==> parser->state == ON_AUTHORITY && str->len == N_ - (SCH_C + 3))
+__CPROVER_ensures(g_mc_on && SCH_FOUND && !SCH_WELL ==> parser->state == ERROR && str->len == N_ - SCH_C)
 ;
 
 /* ------------------------------------------------------------------ path
@@ -86,11 +92,10 @@ __CPROVER_ensures(SCH_FOUND && !SCH_WELL ==> parser->state == ERROR && STR_AT(SC
 static void s_parse_path(struct uri_parser *parser, struct aws_byte_cursor *str)
 PARSER_REQ
 __CPROVER_assigns(parser->state, parser->uri->path_and_query, parser->uri->path, str->ptr, str->len, g_mc_n, g_mc[0], g_last_error, g_raise_count)
-__CPROVER_ensures(g_mc_n == 1 && MC_IS(0, '?', 0, N_))
 __CPROVER_ensures(parser->uri->path_and_query.len == N_ && parser->uri->path_and_query.ptr == S_)
-__CPROVER_ensures(parser->uri->path.ptr == S_ && parser->uri->path.len == (MC(0) == NONE ? N_ : MC(0)))
-__CPROVER_ensures(STR_AT(parser->uri->path.len))
-__CPROVER_ensures(parser->state == (MC(0) == NONE ? FINISHED : ON_QUERY_STRING))
+__CPROVER_ensures(parser->uri->path.ptr == S_ && parser->uri->path.len <= N_ && STR_AT(parser->uri->path.len))
+__CPROVER_ensures(parser->state == (parser->uri->path.len == N_ ? FINISHED : ON_QUERY_STRING))
+__CPROVER_ensures(g_mc_on ==> g_mc_n == 1 && MC_IS(0, '?', 0, N_) && parser->uri->path.len == (MC(0) == NONE ? N_ : MC(0)))
 __CPROVER_ensures(parser->state == ON_QUERY_STRING ==> str->len > 0 && str->ptr[0] == '?')
 __CPROVER_ensures(NOT_RAISED)
 ;
@@ -116,7 +121,6 @@ __CPROVER_ensures(SUB_IS(parser->uri->query_string, 1, N_ - 1))
 #define AU (parser->uri)
 #define AU_A (AU->authority.len)
 #define AU_ERR (parser->state == ERROR)
-#define SAME_OR_IN(v) (SUB_SAME(v) || SUB_IN(v))
 static void s_parse_authority(struct uri_parser *parser, struct aws_byte_cursor *str)
 PARSER_REQ
 __CPROVER_requires(g_pu.calls == 0)
@@ -140,6 +144,41 @@ __CPROVER_ensures(parser->state == FINISHED ==> str->len == 0)
 __CPROVER_ensures(parser->state == ON_PATH ==> str->len > 0 && str->ptr[0] == '/')
 __CPROVER_ensures(parser->state == ON_QUERY_STRING ==> str->len > 0 && str->ptr[0] == '?')
 __CPROVER_ensures(AU_ERR ? g_raise_count > OLD(g_raise_count) && g_last_error == AWS_ERROR_MALFORMED_INPUT_STRING : NOT_RAISED)
+;
+
+
+/* ------------------------------------------------------------------ the state machine
+ * Both callers hand over a zeroed aws_uri whose uri_str holds the text.  Success: the text is kept and every component
+ * view is NULL/0 or lies inside uri_str[0, len) ("inside the URI object's own copy of the text").  Failure: MALFORMED was
+ * raised, the text is released and the whole object is zeroed.  Termination: the state number increases in every step. */
+#define UVIEW_IN(u, v)                                                                                                 \
+    (((u)->v.ptr == NULL && (u)->v.len == 0) ||                                                                        \
+     ((u)->uri_str.buffer != NULL && __CPROVER_same_object((u)->v.ptr, (u)->uri_str.buffer) &&                         \
+      (size_t)__CPROVER_POINTER_OFFSET((u)->v.ptr) <= (u)->uri_str.len &&                                              \
+      (u)->v.len <= (u)->uri_str.len - (size_t)__CPROVER_POINTER_OFFSET((u)->v.ptr)))
+#define ALL_UVIEWS_IN(u)                                                                                               \
+    (UVIEW_IN(u, scheme) && UVIEW_IN(u, authority) && UVIEW_IN(u, userinfo) && UVIEW_IN(u, user) && UVIEW_IN(u, password) && \
+     UVIEW_IN(u, host_name) && UVIEW_IN(u, path) && UVIEW_IN(u, query_string) && UVIEW_IN(u, path_and_query))
+#define UVIEW_ZERO(u, v) ((u)->v.ptr == NULL && (u)->v.len == 0)
+#define ALL_UVIEWS_ZERO(u)                                                                                             \
+    (UVIEW_ZERO(u, scheme) && UVIEW_ZERO(u, authority) && UVIEW_ZERO(u, userinfo) && UVIEW_ZERO(u, user) && UVIEW_ZERO(u, password) && \
+     UVIEW_ZERO(u, host_name) && UVIEW_ZERO(u, path) && UVIEW_ZERO(u, query_string) && UVIEW_ZERO(u, path_and_query))
+static int s_init_from_uri_str(struct aws_uri *uri)
+__CPROVER_requires(__CPROVER_is_fresh(uri, sizeof(*uri)))
+__CPROVER_requires(BUF_FIELDS_OK(&uri->uri_str))
+__CPROVER_requires(ALL_UVIEWS_ZERO(uri) && uri->port == 0)
+__CPROVER_requires(!g_mc_on && g_pu.calls == 0)
+__CPROVER_assigns(*uri, g_last_error, g_raise_count, g_mc_n, __CPROVER_object_whole(g_mc), g_pu)
+__CPROVER_frees(uri->uri_str.buffer)
+__CPROVER_ensures(RET == AWS_OP_SUCCESS || RET == AWS_OP_ERR)
+__CPROVER_ensures(RET == AWS_OP_SUCCESS ==> uri->uri_str.buffer == OLD(uri->uri_str.buffer) && uri->uri_str.len == OLD(uri->uri_str.len) &&
+                  uri->uri_str.capacity == OLD(uri->uri_str.capacity) && uri->uri_str.allocator == OLD(uri->uri_str.allocator) &&
+                  uri->self_size == OLD(uri->self_size) && uri->allocator == OLD(uri->allocator))
+__CPROVER_ensures(RET == AWS_OP_SUCCESS ==> ALL_UVIEWS_IN(uri))
+__CPROVER_ensures(RET == AWS_OP_SUCCESS ==> NOT_RAISED)
+__CPROVER_ensures(RET == AWS_OP_ERR ==> g_raise_count > OLD(g_raise_count) && g_last_error == AWS_ERROR_MALFORMED_INPUT_STRING)
+__CPROVER_ensures(RET == AWS_OP_ERR ==> ALL_UVIEWS_ZERO(uri) && uri->port == 0 && uri->self_size == 0 && uri->allocator == NULL &&
+                  uri->uri_str.buffer == NULL && uri->uri_str.len == 0 && uri->uri_str.capacity == 0 && uri->uri_str.allocator == NULL)
 ;
 
 #endif
